@@ -378,6 +378,11 @@ def gen_srv(r, n, tier, rtu_mode=False, with_auth=None):
         for pdu in eight:
             yield f"srv {fr} d000 - 1:D;2:s0.0.10.1,s2.0.10.2 {hx(frame(1, 1, pdu))},{hx(frame(2, 2, pdu))}"
             yield f"srv {fr} d000 - 1:D {hx(frame(1, 1, pdu))}"
+    if with_auth is None:
+        # the SAME handler object registered under two unit ids (`2=1`): unicast through either id,
+        # and - on RTU - broadcasts, which reach that object once per id it is registered under
+        for pdu in eight:
+            yield f"srv {fr} d000 - 1:D;2=1;3:s0.0.10.1,s2.0.10.2 {hx(frame(1, 0, pdu))},{hx(frame(2, 2, pdu))},{hx(frame(3, 3, bytes([3, 0, 2, 0, 2])))}"
     if with_auth is None and not rtu_mode:
         # every exception code a handler can return (ExceptionCode <-> u8 in both directions)
         for code in range(256):
